@@ -142,6 +142,7 @@ def run(fb, rep, tier):
     input_asserts(fb, rep, rf)
     scan_loops(fb, rep, rf)
     read_targets(fb, rep, rf)
+    growth_tests(fb, rep, rf)
 
 
 # ---------------------------------------------------------------------------------------------------
@@ -923,3 +924,35 @@ def read_targets(fb, rep, rf):
                           '%s has no initialiser and receives its value from %s, whose success is not tested: for an empty or truncated stream the following uses of %s (line %d) read an indeterminate value' % (a.n, render(c)[:30], a.n, uses[0].l if uses else 0))
     if k < 2:
         raise AnalysisBroken('R13.13: only %d scalar locals filled by stream reads found' % k)
+
+
+def growth_tests(fb, rep, rf):
+    """R13.14: the readers detect a duplicate name by remembering the size of the name set, adding the name and testing whether the set grew.
+    After `n = X.size(); X.add(..)` the size is >= n, so only `X.size() <= n` / `== n` (not grown) or `> n` / `!= n` (grown) are tests;
+    `X.size() < n` is never true and `>= n` always: the duplicate goes undetected and a second column of the same name is created."""
+    rep.rule('R13.14', 'a did-the-set-grow test after add() compares the new size with the remembered one by <=, ==, > or != (never <, >=, which are constant)', floor=2)
+    k = 0
+    for f in rf:
+        sizes = {}   # local usr -> rendered container
+        for x in f.nodes:
+            if x.k == 'VarDecl' and x.c:
+                i0 = strip(x.kids[0])
+                if i0.k == 'CXXMemberCallExpr' and i0.short == 'size' and i0.obj() is not None:
+                    sizes[x.u] = (render(strip(i0.obj())), x)
+        for n in f.nodes:
+            if n.k != 'BinaryOperator' or n.o not in ('<', '<=', '>', '>=', '==', '!='):
+                continue
+            a, b = strip(n.kids[0]), strip(n.kids[1])
+            for side, (x, y) in enumerate(((a, b), (b, a))):
+                if x.k == 'CXXMemberCallExpr' and x.short == 'size' and x.obj() is not None and y.k == 'DeclRefExpr' and y.u in sizes \
+                        and sizes[y.u][0] == render(strip(x.obj())):
+                    cont, decl = sizes[y.u]
+                    adds = [z for z in f.nodes if z.k == 'CXXMemberCallExpr' and z.short == 'add' and z.obj() is not None and render(strip(z.obj())) == cont and decl.l <= z.l <= n.l]
+                    if not adds:
+                        continue
+                    op = n.o if side == 0 else {'<': '>', '<=': '>=', '>': '<', '>=': '<=', '==': '==', '!=': '!='}[n.o]
+                    k += 1
+                    rep.check(op in ('<=', '==', '>', '!='), 'R13.14', '%s|%s.size() vs %s' % (f.short, cont, y.n), '%s:%d' % (f.file, n.l), 'tested by %s' % op,
+                              '`%s` after %s.add(): the size can only have grown, so this test is %s - a duplicate name is not detected' % (render(n)[:60], cont, 'never true' if op == '<' else 'always true'))
+    if k < 2:
+        raise AnalysisBroken('R13.14: only %d growth tests found in the readers' % k)
